@@ -86,7 +86,7 @@ def main(argv=None):
     joblist = []
     for o in obs:
         opts = {"timeout": o.get("timeout", default_to), "fork": o.get("fork", False), "max_paths": o.get("max_paths", 64),
-                "vacuity": o.get("vacuity", True), "replay": o.get("replay", True)}
+                "vacuity": o.get("vacuity", True), "replay": o.get("replay", True), "only": o.get("only")}
         joblist.append((hmod, o["fn"], o["params"], o["name"], opts))
     # heavier first
     order = sorted(range(len(joblist)), key=lambda k: -obs[k].get("weight", 1))
